@@ -329,6 +329,7 @@ func classify(j *job, r result) []string {
 }
 
 var reHugeInt = regexp.MustCompile(`\d{10,}`)
+var rePlaceholder = regexp.MustCompile(`%[-+0# ]*\d*(\.\d*)?[a-zA-Z]`)
 var reUnconditionalJoin = regexp.MustCompile("(?i)\\bFROM\\s+[^\\s,]+(\\s+\\w+)?\\s*,|CROSS\\s+JOIN")
 var reLargeQuantity = regexp.MustCompile(`\d{7,}|\d[eE]\+?\d{1,3}\b`)
 
@@ -349,7 +350,9 @@ func tagKind(j *job) string {
 // or feeds csvq more than 32 KB: running out of 3 GB is then no evidence of a defect.
 func hugeRequest(j *job) bool {
 	for _, a := range j.argv() {
-		if len(a) > 3000 || reLargeQuantity.MatchString(a) {
+		// a width or precision inside a format placeholder is not a quantity of data: `%99999999999d` is a
+		// 13-character string, and a formatter that allocates what it says is the defect
+		if len(a) > 3000 || reLargeQuantity.MatchString(rePlaceholder.ReplaceAllString(a, "%")) {
 			return true
 		}
 	}
@@ -898,6 +901,12 @@ func run(seed int64, n int, dir string, _ []string) {
 			jobs = append(jobs, grammarJobs(g)...)
 			jobs = append(jobs, raggedJobs()...)
 			jobs = append(jobs, lockJobs()...)
+			jobs = append(jobs, joinJobs()...)
+			jobs = append(jobs, levelPairJobs()...)
+			jobs = append(jobs, udfEffectJobs()...)
+			jobs = append(jobs, nameListJobs()...)
+			jobs = append(jobs, patternJobs()...)
+			jobs = append(jobs, fieldlessJobs()...)
 			jobs = append(jobs, fsJobs(g)...)
 		}
 		jobs = append(jobs, accessPathJobs(g, budget*3/100, done == 0)...)
@@ -949,7 +958,7 @@ func run(seed int64, n int, dir string, _ []string) {
 				if len(laws) > 0 {
 					o.Count("inproc_confirmed")
 				} else {
-					o.Count("inproc_unconfirmed:" + strings.TrimPrefix(j.Tags[0], "inproc_candidate:"))
+					o.Count("inproc_unconfirmed:" + strings.TrimPrefix(j.Tags[1], "inproc_candidate:"))
 				}
 			}
 			o.NonTrivial(j.Group + ":" + strings.Join(sigTags(j.Tags), ",") + fmt.Sprintf(":%d", r.rc))
